@@ -363,7 +363,15 @@ func runPhase(bin, scratch, prop, tier string, seed uint64, ph phase, known stri
 			from := ph.from + w
 			var parts []string
 			budget := ph.wall
+			phaseStart := time.Now()
 			for attempt := 0; attempt < 400; attempt++ {
+				if attempt > 0 {
+					// restarts (hand-over, watchdog) share the phase's budget
+					budget = ph.wall - time.Since(phaseStart)
+					if budget < time.Second {
+						break
+					}
+				}
 				out := outs[w]
 				if attempt > 0 {
 					out = fmt.Sprintf("%s.%d", outs[w], attempt)
@@ -390,10 +398,7 @@ func runPhase(bin, scratch, prop, tier string, seed uint64, ph phase, known stri
 					var used int64
 					if _, e := fmt.Sscanf(string(nb), "%d %d", &next, &used); e == nil && next > from {
 						from = next
-						budget -= time.Duration(used)
-						if budget > time.Second {
-							continue
-						}
+						continue
 					}
 					break
 				}
